@@ -118,7 +118,9 @@ func (ctx Ctx) coqTypeOfType(n ast.Node, t types.Type) coq.Type {
 	case *types.Signature:
 		ctx.unsupported(n, "function type")
 	case *types.Interface:
-		return coq.InterfaceDecl{Name: ""}
+		// an interface type literal has no GooseLang type (named interfaces
+		// are handled above)
+		ctx.unsupported(n, "anonymous interface type %v", t)
 	}
 	ctx.nope(n, "unknown type %v", t)
 	return nil // unreachable
